@@ -35,9 +35,9 @@ type SstCase struct {
 }
 
 type sstEntry struct {
-	key  []byte
-	val  []byte // nil = tombstone
-	seq  uint64
+	key []byte
+	val []byte // nil = tombstone
+	seq uint64
 }
 
 func genSstEntries(c SstCase) []sstEntry {
@@ -142,7 +142,9 @@ func runC11(t *testing.T, c SstCase) *kit.Result {
 		blocks := 1 + fileSize/(64*1024)
 
 		prng := kit.NewRand(c.PSeed)
-		find := func(t []byte) int { return sort.Search(len(ents), func(i int) bool { return bytes.Compare(ents[i].key, t) >= 0 }) }
+		find := func(t []byte) int {
+			return sort.Search(len(ents), func(i int) bool { return bytes.Compare(ents[i].key, t) >= 0 })
+		}
 
 		// ---------------- exact read-back (no faults)
 		exact := func() {
